@@ -7,6 +7,9 @@ mod sched;
 mod m6;
 mod m7;
 mod hist;
+mod m8;
+mod m9;
+mod m10;
 mod util;
 use util::*;
 
@@ -45,6 +48,12 @@ fn main() {
         ("c08", Some(p)) => m5::replay(&args, "C08", p),
         ("c09", Some(p)) => m5::replay(&args, "C09", p),
         ("c10", Some(p)) => m5::replay(&args, "C10", p),
+        ("c11", None) => m8::run_c11(&args),
+        ("c11", Some(p)) => m5::replay(&args, "C11", p),
+        ("c17", None) => m9::run_c17(&args),
+        ("c17", Some(p)) => m5::replay(&args, "C17", p),
+        ("c18", None) => m10::run_c18(&args),
+        ("c18", Some(p)) => m5::replay(&args, "C18", p),
         (other, _) => {
             eprintln!("unknown command {other}");
             std::process::exit(2);
